@@ -301,6 +301,11 @@ func (tmp *tmpfile) Write(b []byte) (int, error) {
 
 func (tmp *tmpfile) cleanup() {
 	tmp.f.Close()
+	if !tmp.isOTmp {
+		// a named temp file that was not renamed into place (refused or
+		// failed upload) would stay in the temp directory for good
+		os.Remove(tmp.f.Name())
+	}
 }
 
 func (tmp *tmpfile) File() *os.File {
